@@ -82,6 +82,15 @@ Proof.
 Qed.
 Print Assumptions C15_load_reads_the_whole_file.
 
+Theorem C15_whole_read_is_the_file : forall file, FileStore.read_file None file = file.
+Proof. exact FileStoreProofs.read_whole. Qed.
+Print Assumptions C15_whole_read_is_the_file.
+
+Theorem C15_limited_read_is_a_crash_prefix : forall n file, (n < length file)%nat ->
+  exists rest, rest <> [] /\ file = FileStore.read_file (Some n) file ++ rest /\ length (FileStore.read_file (Some n) file) = n.
+Proof. exact FileStoreProofs.read_limited_is_a_proper_prefix. Qed.
+Print Assumptions C15_limited_read_is_a_crash_prefix.
+
 Theorem C15_replacing_write_leaves_the_document : forall old new, FileStore.write_file true old new = new.
 Proof. exact FileStoreProofs.write_truncating. Qed.
 Print Assumptions C15_replacing_write_leaves_the_document.
